@@ -270,6 +270,60 @@ theorem autocov_zero_hermitian (x : ℕ → ℕ → ℂ) (N i j : ℕ) :
   refine sum_congr rfl fun t _ => ?_
   simp [mul_comm]
 
+/-- the model's embedding of an integer sample is the integer itself (exact, no rounding) -/
+theorem ofIntK_eq (z : ℤ) : (ofIntK z : ℂ) = (z : ℂ) := by
+  unfold ofIntK
+  split_ifs with h
+  · rw [sc_ofNat]
+    exact_mod_cast congrArg (Int.cast (R := ℂ)) (Int.toNat_of_nonneg h)
+  · rw [sc_neg, sc_ofNat]
+    have h' : 0 ≤ -z := by omega
+    have := congrArg (Int.cast (R := ℂ)) (Int.toNat_of_nonneg h')
+    push_cast at this
+    rw [this]; ring
+
+/-- **C11 covariance helper on integer-typed recordings** (int16 / int32 / int64 / uint8 data):
+entry `[i,j,k]` is the EXACT rational lagged average `(Σ_{t<N−k} x_i[t+k]·y_j[t]) / (N−k)` of the
+integer samples — the integer sum of products divided in the field, nothing truncated. -/
+theorem crosscov_int_is_lagged_average (xi yi : ℕ → ℕ → ℤ) (N i j k : ℕ) :
+    (crosscovEntryInt xi yi N i j k : ℂ)
+      = ((∑ t ∈ range (N - k), xi i (t + k) * yi j t : ℤ) : ℂ) / ((N - k : ℕ) : ℂ) := by
+  unfold crosscovEntryInt
+  rw [crosscov_is_lagged_average]
+  congr 1
+  push_cast
+  refine sum_congr rfl fun t _ => ?_
+  rw [ofIntK_eq, ofIntK_eq]
+  simp
+
+/-- counter-model (seeded change C11-8): the output array allocated with
+`dtype=np.result_type(x, y)`; for integer recordings the assignment `rxy[..., k] = prod.mean(-1)`
+then truncates the lagged average toward zero -/
+def crosscovEntryIntTrunc (xi yi : ℕ → ℕ → ℤ) (N i j k : ℕ) : ℤ :=
+  (∑ t ∈ range (N - k), xi i (t + k) * yi j t).tdiv ((N - k : ℕ) : ℤ)
+
+/-- an integer-typed output array does NOT hold the lagged average: one channel, samples `1, 2`,
+lag 0: the average is `5/2`, the truncated entry is `2`. -/
+theorem crosscov_int_output_counterexample :
+    ∃ (xi : ℕ → ℕ → ℤ) (N : ℕ),
+      ((crosscovEntryIntTrunc xi xi N 0 0 0 : ℤ) : ℂ) ≠ (crosscovEntryInt xi xi N 0 0 0 : ℂ) := by
+  refine ⟨fun _ t => if t = 0 then 1 else 2, 2, ?_⟩
+  rw [crosscov_int_is_lagged_average]
+  have h1 : crosscovEntryIntTrunc (fun _ t => if t = 0 then (1 : ℤ) else 2) (fun _ t => if t = 0 then 1 else 2) 2 0 0 0 = 2 := by
+    decide
+  have h2 : (∑ t ∈ range (2 - 0), (fun (_ : ℕ) (t : ℕ) => if t = 0 then (1 : ℤ) else 2) 0 (t + 0)
+      * (fun (_ : ℕ) (t : ℕ) => if t = 0 then (1 : ℤ) else 2) 0 t) = 5 := by decide
+  rw [h1, h2]
+  norm_num
+
+/-- non-vacuity of `crosscov_int_is_lagged_average`: samples `1, 2` average to `5/2` -/
+example : (crosscovEntryInt (fun _ t => if t = 0 then (1 : ℤ) else 2) (fun _ t => if t = 0 then 1 else 2) 2 0 0 0 : ℂ)
+    = 5 / 2 := by
+  rw [crosscov_int_is_lagged_average]
+  have h2 : (∑ t ∈ range (2 - 0), (fun (_ : ℕ) (t : ℕ) => if t = 0 then (1 : ℤ) else 2) 0 (t + 0)
+      * (fun (_ : ℕ) (t : ℕ) => if t = 0 then (1 : ℤ) else 2) 0 t) = 5 := by decide
+  rw [h2]; norm_num
+
 end cov
 
 /-! ### simulator -/
@@ -858,14 +912,14 @@ open Nitime.GrangerObj
 attributes (`order`, `autocov`, `model_coef`, `error_cov` = projections of `_model`) on one
 `GrangerAnalyzer`, each read returns `fit_model` of the pairs of the input the analyzer holds at
 that moment (`ref`), never of an earlier one. -/
-theorem analyzer_retarget_model (crit : String) (order : ℤ) (maxo : ℕ) (ops : List (Op GIn)) (d : GIn) :
+theorem analyzer_retarget_model (crit : String) (order maxo : Option ℕ) (ops : List (Op GIn)) (d : GIn) :
     run (gFit crit order maxo) (fun _ _ => ()) (fun _ => ()) ops
         (construct d : Obj GIn (List Fit) Unit Unit)
       = ref (gFit crit order maxo) (fun _ _ => ()) (fun _ => ()) ops d :=
   run_eq_ref _ _ _ ops d
 
 /-- in particular: whatever was read before, after `set_input(d')` the model is the fit of `d'` -/
-theorem analyzer_model_after_set_input (crit : String) (order : ℤ) (maxo : ℕ) (pre : List (Op GIn))
+theorem analyzer_model_after_set_input (crit : String) (order maxo : Option ℕ) (pre : List (Op GIn))
     (d0 d' : GIn) :
     (run (gFit crit order maxo) (fun _ _ => ()) (fun _ => ())
         (pre ++ [.setInput d', .readModel, .readGC, .readFreqs])
@@ -881,9 +935,9 @@ theorem analyzer_model_after_set_input (crit : String) (order : ℤ) (maxo : ℕ
 
 /-- non-vacuity: a read, a re-target, a read -/
 example (d0 d' : GIn) :
-    run (gFit "bic" 1 10) (fun _ _ => ()) (fun _ => ()) [.readModel, .setInput d', .readModel]
+    run (gFit "bic" (some 1) (some 10)) (fun _ _ => ()) (fun _ => ()) [.readModel, .setInput d', .readModel]
         (construct d0 : Obj GIn (List Fit) Unit Unit)
-      = [.model (gFit "bic" 1 10 d0), .done, .model (gFit "bic" 1 10 d')] := by
+      = [.model (gFit "bic" (some 1) (some 10) d0), .done, .model (gFit "bic" (some 1) (some 10) d')] := by
   rw [analyzer_retarget_model]; rfl
 
 end analyzer
